@@ -30,8 +30,8 @@ import time
 HERE = os.path.dirname(os.path.abspath(__file__))
 VERIF = os.path.dirname(HERE)
 REPO_MODELS = os.environ.get("C20_MODELS_DIR", "/repo/formal-models")
-EVIDENCE = os.path.join(VERIF, "evidence", "C20.json")
-REPLAYS = os.path.join(VERIF, "replays", "C20")
+EVIDENCE = os.environ.get("C20_EVIDENCE", os.path.join(VERIF, "evidence", "C20.json"))
+REPLAYS = os.environ.get("C20_REPLAYS", os.path.join(VERIF, "replays", "C20"))
 KNOWN_FILE = os.environ.get("VERIF_KNOWN_FINDINGS", os.path.join(VERIF, "known_findings.txt"))
 NCPU = os.cpu_count() or 4
 
